@@ -682,7 +682,7 @@ def _name(name, script, cfg):
     bits = [name, f"d{cfg['delay']}", f"ls{cfg['learning_starts']}"]
     if "tau" in cfg:
         bits.append(f"tau{cfg['tau']}")
-    for k in ("global_step", "update_frequency", "gradient_steps", "policy_delay", "use_checkpoints"):
+    for k in ("global_step", "update_frequency", "gradient_steps", "policy_delay", "use_checkpoints", "window", "threshold"):
         if cfg.get(k):
             bits.append(f"{k}{cfg[k]}")
     if cfg.get("levels"):
